@@ -135,7 +135,7 @@ pub fn cfg_for_tier(prop: &str, seed: u64, index: u64, thorough: bool) -> HistCf
     let mut rng = Rng::from_parts(&[seed, index, 0xC0F6, prop.bytes().fold(0u64, |a, b| a * 131 + b as u64)]);
     let profile = match prop {
         "C01" => *rng.pick(&[Profile::Rw, Profile::Rw, Profile::Rw, Profile::Mixed]),
-        "C02" => *rng.pick(&[Profile::Dirs, Profile::Rw, Profile::Mixed, Profile::Grow]),
+        "C02" => *rng.pick(&[Profile::Dirs, Profile::Rw, Profile::Mixed, Profile::Grow, Profile::Fill]),
         "C03" => *rng.pick(&[Profile::Dirs, Profile::Fill, Profile::Mixed, Profile::Matrix, Profile::Grow]),
         "C04" => *rng.pick(&[Profile::Dirs, Profile::Fill, Profile::Rw, Profile::Mixed, Profile::Grow]),
         "C05" => *rng.pick(&[Profile::Fill, Profile::Fill, Profile::Dirs]),
